@@ -488,7 +488,10 @@ def _hist_parts(k, plen, extra_cfgs, roles=None, base=None):
     """partitions (role, first plen events) for the plain configuration + the listed extra configurations"""
     out = []
     for cfg in [dict(base or {})] + [dict(base or {}, **c) for c in extra_cfgs]:
+        only_roles = cfg.pop('only_roles', None)
         for role in (roles or _ALPHA_N):
+            if only_roles and role not in only_roles:
+                continue
             if cfg.get('lease') and not role.endswith('_req'):
                 continue
             if cfg.get('req_follows') and role.endswith('_req'):
@@ -545,7 +548,8 @@ def spec_c07(tier, seed):
     return _hist_spec('c07_termination', tier,
                       'Monitor: every subscriber the library drives sees on_subscribe . on_next* . at most one terminal, nothing '
                       'after it; the request-response awaitable is resolved exactly once and never left pending.',
-                      [{'frag': True}, {'resp_no_pub': True, 'req_complete': True}])
+                      [{'frag': True}, {'resp_no_pub': True, 'req_complete': True},
+                       dict({'neighbour_raises': True}, **({'only_roles': ('rr_req', 'rs_req', 'rr_resp', 'rs_resp')} if tier == 'quick' else {}))])
 
 
 def spec_c08(tier, seed):
@@ -591,7 +595,8 @@ def spec_c10(tier, seed):
                       'Monitor at quiescence: if the interaction has terminated by the protocol definition, no stream-table entry and no '
                       'partial frame remain for it (also with a FOLLOWS fragment pending), a new request on the id is accepted, and both '
                       'tables are empty once the bystander finished.',
-                      [{'frag': True}, {'req_follows': True}, {'resp_no_pub': True, 'req_complete': True}, {'resp_no_pub': True}, {'req_complete': True}],
+                      [{'frag': True}, {'req_follows': True}, {'resp_no_pub': True, 'req_complete': True}, {'resp_no_pub': True}, {'req_complete': True},
+                       {'req_follows': True, 'req_complete': True}],
                       extra_conds=[Cond('c09_cancel', 'c_cancel_end_to_end', parts=[{'e2e_kind': k} for k in range(2)], timeout=900)],
                       base={'probe_reuse': True})
 
